@@ -13,8 +13,15 @@
    entries in goroutines of their own while nobody receives, waits until each has returned
    or is parked, and reports len(ScheduleCh) and the number of parked goroutines after
    every operation; ODrain (and OTick / OTickAll before they fire) receives until every
-   started job has returned and the channel is empty and reports the strings received. *)
-From Verif Require Import Common C11_Model C11_Spec C11_Hm C11_HmSpec.
+   started job has returned and the channel is empty and reports the strings received.
+   OSmStart: the harness calls the manager's Start() (at most once per case; only in cases whose
+   crontabs are due months from now, so that the running scheduler never fires by the clock
+   while the case runs).  From then on - as before - the cron entries are those of the runner
+   THE MANAGER HOLDS at that moment (looked up again at every use), listed by entry id (the
+   running runner keeps them sorted by next activation time); ticks run the jobs of those
+   entries.  The predicate is P_start / P_op_start (C11_StartSpec): P resp. P_op, and one tick
+   delivers every crontab with a registered id once and nothing else. *)
+From Verif Require Import Common C11_Model C11_Spec C11_Hm C11_HmSpec C11_StartSpec.
 
 (* two case classes.
    CCtl: real ScheduleBindingsControllers sharing one real scheduleManager; a firing is handed
@@ -104,6 +111,6 @@ Definition agrees (c : case) : bool :=
 Definition mismatches (cs : list case) : list N := indices_where (fun c => negb (agrees c)) cs.
 Definition spec_violations (cs : list case) : list N :=
   indices_where (fun c => negb (match c with
-                                | CCtl c => P (fst c) (snd c)
-                                | COp c => P_op (load_input (fst c)) (snd (snd c))
+                                | CCtl c => P_start (fst c) (snd c)
+                                | COp c => P_op_start (load_input (fst c)) (snd (snd c))
                                 end)) cs.
